@@ -66,7 +66,7 @@ func nameOfSlot(h common.Hash) string {
 
 // Item is one step of a frame's program.
 type Item struct {
-	Op    string // "sstore" | "log" | "call" (any frame kind, also a creation) | "collide" (a creation that is refused)
+	Op    string // "sstore" | "log" | "call" (any frame kind, also a creation) | "collide" (a creation that is refused) | "jump" (Slot = destination class)
 	Slot  string
 	Val   int
 	Child *Node
@@ -81,7 +81,7 @@ type Node struct {
 	Items  []*Item
 	End    string // ok | revert | fail | suicide | toobig | nodeposit (the last two: creation frames)   ("" while under construction)
 	Benef  string // beneficiary of a suicide
-	Flavor string // concrete way to fail: invalid | oog | underflow | badjump | wp_sstore | wp_log | wp_suicide | wp_call | wp_create
+	Flavor string // concrete way to fail: invalid | oog | underflow | badjump | wp_sstore | wp_log | wp_suicide | wp_call | wp_create | jump:<destination class> (BadJump of the spec)
 	gas    uint64 // gas the parent asks for (ample plan)
 }
 
@@ -151,8 +151,10 @@ func (n *Node) plan(L uint64) uint64 {
 			need += 20100
 		case "log":
 			need += 500
+		case "jump":
+			need += 100
 		case "collide":
-			need = 64*need + 64 + 33000 + 2*memCost(L) + 500
+			need = 64*need + 64 + 33000 + 2*memCost(L) + 1000
 		case "call":
 			c := it.Child
 			cg := c.plan(L)
@@ -163,7 +165,7 @@ func (n *Node) plan(L uint64) uint64 {
 						a = b
 					}
 				}
-				need = a + 33000 + 2*memCost(L) + 500
+				need = a + 33000 + 2*memCost(L) + 1000
 			} else {
 				need += 40000 + cg + cg/32 + 64
 			}
@@ -212,6 +214,106 @@ func emitCall(a *asm, kind string, to common.Address, val int, id int, gas uint6
 // the call data, the INIT header (a creation has no call data) pushes it.
 const headerLen = 6
 
+// CODE SHAPES (CallFramesOps.tla).  The images of one tree differ per shape where it matters for a jump and nowhere else:
+//
+//	[0,6)    header
+//	[6,10)   PUSH2 disp; JUMP
+//	[10,19)  nSlots marked slots of 3 bytes: in the shape whose slot it is  PUSH1 0x5b; POP  (the 0x5b at the marked offset is
+//	         PUSH data), in every other shape  JUMPDEST; JUMPDEST; JUMP  (the marked offset is a JUMPDEST: a trampoline that
+//	         jumps on to the address below it on the stack)
+//	disp:    dispatcher, bodies                                  (identical layout in every shape)
+//	[lbase, lbase+66)  long shapes only: 64 x STOP, then the far trampoline  JUMPDEST; JUMP
+//
+// shape = slot + nSlots * long.  Destination classes: "next" (the byte behind the JUMP), "s<i>" (marked offset i),
+// "far" (lbase+64: the far trampoline of the long shapes, behind the end of the short ones).
+const (
+	nSlots    = 3
+	regionOff = headerLen + 4
+	tailPad   = 64
+	tailLen   = tailPad + 2
+)
+
+var jumpDests = []string{"next", "far", "s0", "s1", "s2"}
+
+func shapeLong(sh int) bool { return sh >= nSlots }
+
+// jumpValid: the destination is a JUMPDEST instruction of code of this shape (the generator's knowledge of the programs
+// it writes, JumpValid of the spec; the verdict on what the real EVM does with the jump is TLC's)
+func jumpValid(sh int, d string) bool {
+	switch d {
+	case "next":
+		return true
+	case "far":
+		return shapeLong(sh)
+	}
+	return d != fmt.Sprintf("s%d", sh%nSlots)
+}
+
+var (
+	slotOwn   = []byte{opPUSH1, opJUMPDEST, opPOP}
+	slotOther = []byte{opJUMPDEST, opJUMPDEST, opJUMP}
+)
+
+// shapeOfCode reads the shape off a code image (-1: not an image of this layout); lbase = length of the short shapes.
+func shapeOfCode(code []byte, lbase int) int {
+	long := 0
+	switch len(code) {
+	case lbase:
+	case lbase + tailLen:
+		long = nSlots
+	default:
+		return -1
+	}
+	if lbase < regionOff+3*nSlots || code[headerLen] != opPUSH1+1 || code[headerLen+3] != opJUMP {
+		return -1
+	}
+	own := -1
+	for i := 0; i < nSlots; i++ {
+		switch code[regionOff+3*i] {
+		case opPUSH1:
+			if own >= 0 {
+				return -1
+			}
+			own = i
+		case opJUMPDEST:
+		default:
+			return -1
+		}
+	}
+	if own < 0 {
+		return -1
+	}
+	return own + long
+}
+
+// destClass: the class of the destination dest of a JUMP at pc ("": none of the classified ones)
+func destClass(dest, pc uint64, lbase int) string {
+	switch {
+	case dest == pc+1:
+		return "next"
+	case dest == uint64(lbase+tailPad):
+		return "far"
+	}
+	for i := 0; i < nSlots; i++ {
+		if dest == uint64(regionOff+3*i+1) {
+			return fmt.Sprintf("s%d", i)
+		}
+	}
+	return ""
+}
+
+// emitJump: a jump towards the destination class d.  "next": PUSH2 L; JUMP; L: JUMPDEST.  The others are trampolines
+// that jump on to the address below: PUSH2 L; PUSH2 <dest>; JUMP; L: JUMPDEST.
+func emitJump(a *asm, d string) {
+	cont := fmt.Sprintf("jc%d", len(a.buf))
+	a.pushLabel(cont)
+	if d != "next" {
+		a.pushLabel(d)
+	}
+	a.op(opJUMP)
+	a.dest(cont)
+}
+
 func runtimeHeader() []byte { return []byte{opPUSH1, 0, opCALLDATALOAD, opPUSH1, 0, opBYTE} }
 func initHeader(id int) []byte {
 	return []byte{opPUSH1, byte(id), opJUMPDEST, opJUMPDEST, opJUMPDEST, opJUMPDEST}
@@ -232,26 +334,46 @@ func emitImageToMemory(a *asm, header []byte) {
 	}
 }
 
-// emitCreate: CREATE with the image (init header of the child) as init code.
-func emitCreate(a *asm, val int, id int) {
+// emitCreate: CREATE with the image (init header of the child) as init code.  The running image has shape own, the init
+// code gets shape sh: the copy is re-shaped in memory (the marked slot of the own shape becomes a trampoline, the one of
+// the new shape PUSH data; the far trampoline is written behind the short image - the memory in between is zero = STOP)
+// and handed over with the length of the new shape.  (Same code length whatever the shapes: one layout for all images.)
+func emitCreate(a *asm, val int, id int, own, sh int) {
 	emitImageToMemory(a, initHeader(id))
-	a.op(opCODESIZE).push(0).push(uint64(val)).op(opCREATE)
+	for i, b := range slotOther {
+		a.push(uint64(b)).push(uint64(regionOff + 3*(own%nSlots) + i)).op(opMSTORE8)
+	}
+	for i, b := range slotOwn {
+		a.push(uint64(b)).push(uint64(regionOff + 3*(sh%nSlots) + i)).op(opMSTORE8)
+	}
+	a.push(opJUMPDEST).pushLabel("far").op(opMSTORE8)
+	a.push(opJUMP).pushLabel("far1").op(opMSTORE8)
+	if shapeLong(sh) {
+		a.pushLabel("len_long")
+	} else {
+		a.pushLabel("len_short")
+	}
+	a.push(0).push(uint64(val)).op(opCREATE)
 	a.op(opPOP) // the new address or 0 (the tracer reads it from the stack of this POP)
 }
 
-func emitBody(a *asm, n *Node) {
+// emitBody: the body of node n inside the image of shape own; shapeOf = the shape of the code every address holds / is
+// created with.
+func emitBody(a *asm, n *Node, own int, shapeOf map[string]int) {
 	for _, it := range n.Items {
 		switch it.Op {
 		case "sstore":
 			a.push(uint64(it.Val)).pushBytes(slotKey(it.Slot).Big().Bytes()).op(opSSTORE)
 		case "log":
 			a.push(0).push(0).op(opLOG0)
+		case "jump":
+			emitJump(a, it.Slot)
 		case "collide":
-			emitCreate(a, it.Val, 0) // (refused before the init code runs)
+			emitCreate(a, it.Val, 0, own, own) // (refused before the init code runs)
 		case "call":
 			c := it.Child
 			if c.Kind == "create" {
-				emitCreate(a, c.Val, c.ID)
+				emitCreate(a, c.Val, c.ID, own, shapeOf[c.To])
 			} else {
 				emitCall(a, c.Kind, addrOf[c.To], c.Val, c.ID, c.gas)
 			}
@@ -308,6 +430,10 @@ func emitBody(a *asm, n *Node) {
 		case "wp_create":
 			a.push(0).push(0).push(0).op(opCREATE)
 		default:
+			if len(n.Flavor) > 5 && n.Flavor[:5] == "jump:" { // a jump to what is no JUMPDEST of the code this frame runs
+				emitJump(a, n.Flavor[5:])
+				break
+			}
 			panic("unknown failure flavour " + n.Flavor)
 		}
 		a.op(opSTOP) // never reached
@@ -332,31 +458,63 @@ func maxFlavour(root *Node, choose func(*Node) bool) {
 	})
 }
 
-// compile builds the one code image every contract of the universe holds: the header (node id from the first byte
-// of the call data), a dispatcher on the id, the body of every node of the tree.
-func compile(root *Node) []byte {
+// compile builds the code image of one shape: the header (node id from the first byte of the call data), the marked
+// slots, a dispatcher on the id, the body of every node of the tree, the tail of the long shapes.
+func compile(root *Node, shape int, shapeOf map[string]int) []byte {
 	a := newAsm()
 	a.op(runtimeHeader()...)
+	a.pushLabel("disp").op(opJUMP)
+	for i := 0; i < nSlots; i++ {
+		a.labels[fmt.Sprintf("s%d", i)] = len(a.buf) + 1
+		if i == shape%nSlots {
+			a.op(slotOwn...)
+		} else {
+			a.op(slotOther...)
+		}
+	}
+	a.dest("disp")
 	root.walk(func(n *Node) {
 		a.op(opDUP1).push(uint64(n.ID)).op(opEQ).pushLabel(fmt.Sprintf("n%d", n.ID)).op(opJUMPI)
 	})
 	a.op(opSTOP)
 	root.walk(func(n *Node) {
 		a.dest(fmt.Sprintf("n%d", n.ID)).op(opPOP)
-		emitBody(a, n)
+		emitBody(a, n, shape, shapeOf)
 	})
+	lbase := len(a.buf)
+	a.labels["len_short"], a.labels["len_long"] = lbase, lbase+tailLen
+	a.labels["far"], a.labels["far1"] = lbase+tailPad, lbase+tailPad+1
+	if shapeLong(shape) {
+		a.op(make([]byte, tailPad)...)
+		a.op(opJUMPDEST, opJUMP)
+	}
 	return a.bytes()
 }
 
-// build: plan and image of a tree (the plan needs the length of the image, which does not depend on the plan)
-func build(root *Node) (image []byte, ample uint64) {
-	L := uint64(len(compile(root)))
+// build: plan and images (one per shape in use) of a tree; the plan needs the length of the (long) image, which does not
+// depend on the plan.  lbase = the length of the short shapes.
+func build(root *Node, shapeOf map[string]int) (images map[int][]byte, lbase int, ample uint64) {
+	L := uint64(len(compile(root, nSlots, shapeOf)))
 	ample = root.plan(L)
-	image = compile(root)
-	if uint64(len(image)) != L {
-		panic(fmt.Sprintf("compile: layout changed between the passes (%d / %d)", L, len(image)))
+	lbase = int(L) - tailLen
+	images = map[int][]byte{}
+	for _, n := range codeNames {
+		sh := shapeOf[n]
+		if images[sh] != nil {
+			continue
+		}
+		img := compile(root, sh, shapeOf)
+		if want := lbase + map[bool]int{true: tailLen}[shapeLong(sh)]; len(img) != want || shapeOfCode(img, lbase) != sh {
+			panic(fmt.Sprintf("compile: layout of shape %d differs (%d / %d bytes)", sh, len(img), want))
+		}
+		images[sh] = img
 	}
-	return image, ample
+	return images, lbase, ample
+}
+
+// defaultShapes: pairwise different codes (the probe driver; behaviours of configurations without code shapes)
+func defaultShapes() map[string]int {
+	return map[string]int{"A": 1, "B": 5, "C": 3, "nU": 0, "nA": 4, "nB": 2, "nC": 1}
 }
 
 // actions lists the tree in execution order in the vocabulary of the spec (what the generator prescribed).
@@ -368,11 +526,16 @@ func (n *Node) actions(out *[]map[string]interface{}) {
 			*out = append(*out, map[string]interface{}{"t": "sstore", "k": "", "to": "", "v": it.Val, "s": it.Slot})
 		case "log":
 			*out = append(*out, map[string]interface{}{"t": "log", "k": "", "to": "", "v": 0, "s": ""})
+		case "jump":
+			*out = append(*out, map[string]interface{}{"t": "jump", "k": "", "to": "", "v": 0, "s": it.Slot})
 		case "collide": // the creation is issued, no frame ever runs
 			*out = append(*out, map[string]interface{}{"t": "enter", "k": "create", "to": it.Slot, "v": it.Val, "s": ""})
 		case "call":
 			it.Child.actions(out)
 		}
+	}
+	if n.End == "fail" && len(n.Flavor) > 5 && n.Flavor[:5] == "jump:" {
+		*out = append(*out, map[string]interface{}{"t": "jump", "k": "", "to": "", "v": 0, "s": n.Flavor[5:]})
 	}
 	*out = append(*out, map[string]interface{}{"t": "exit", "k": n.End, "to": n.Benef, "v": 0, "s": ""})
 }
